@@ -318,6 +318,15 @@ func VH_C04_InvPreserved() {
 	idB := vhIDs[verifrt.IntRange("idB", 0, M+1)]
 	seatA := verifrt.IntRange("seatA", -2, M+1)
 	seatB := verifrt.IntRange("seatB", -2, M+1)
+	d0, sb0, bb0, init0 := sm.DealerSeatID, sm.SBSeatID, sm.BBSeatID, sm.IsInit
+	pre0 := make([]vhSeat, M)
+	preID := make([]string, M)
+	for s := 0; s < M; s++ {
+		if p := sm.SeatData[s]; p != nil {
+			pre0[s] = vhSeat{occ: true, in: p.IsIn, btw: p.IsBetweenDealerBB, chips: p.HasChips}
+			preID[s] = p.ID
+		}
+	}
 	switch op {
 	case 0:
 		sm.AssignSeats(map[string]int{idA: seatA, idB: seatB})
@@ -333,6 +342,27 @@ func VH_C04_InvPreserved() {
 		sm.InitPositions(verifrt.Bool("random"))
 	case 6:
 		sm.RotatePositions()
+	}
+	if op <= 4 {
+		// the button and the blinds move only when positions are computed for a hand: seating,
+		// departures, joins and chip flags never move them (nor forget that they were set)
+		verifrt.Assert(sm.DealerSeatID == d0 && sm.SBSeatID == sb0 && sm.BBSeatID == bb0 && sm.IsInit == init0, "membership and chip events leave dealer, small blind, big blind and the initialised flag alone")
+	}
+	if op == 3 || op == 4 {
+		// frame of the two flag events: a join only sets seated-in flags, a chip update only
+		// the has-chips flag of the named player; who sits where and the other flags stay
+		for s := 0; s < M; s++ {
+			p := sm.SeatData[s]
+			verifrt.Assert((p != nil) == pre0[s].occ, "flag events leave the occupancy of every seat alone")
+			if p != nil && pre0[s].occ {
+				verifrt.Assert(p.ID == preID[s] && p.IsBetweenDealerBB == pre0[s].btw, "flag events leave occupant and waiting flag alone")
+				if op == 3 {
+					verifrt.Assert(p.HasChips == pre0[s].chips && (p.IsIn == pre0[s].in || (p.IsIn && (p.ID == idA || p.ID == idB))), "a join only sets the seated-in flag of the named players")
+				} else {
+					verifrt.Assert(p.IsIn == pre0[s].in && (p.HasChips == pre0[s].chips || p.ID == idA), "a chip update only touches the has-chips flag of the named player")
+				}
+			}
+		}
 	}
 	verifrt.Assert(len(sm.SeatData) == M, "seat data keeps exactly the configured seats")
 	for s := 0; s < M; s++ {
